@@ -86,9 +86,9 @@ impl Prop for C12 {
     const ID: &'static str = "C12";
 
     fn lanes(tier: Tier) -> Vec<Lane> {
-        vec![Lane::new("main", tier.pick(160_000, 6_000_000))
-            .cap(tier.pick(60, 600))
-            .floor(tier.pick(2_000, 50_000))]
+        vec![Lane::new("main", tier.pick(1_000_000, 12_000_000))
+            .cap(tier.pick(120, 900))
+            .floor(tier.pick(10_000, 200_000))]
     }
 
     fn rule() -> &'static str {
